@@ -529,6 +529,15 @@ func c19Case(c *core.C) {
 				restore()
 				return
 			}
+			// a Store that reports success in spite of the injected failure has promised a retrievable document
+			if which == "store" && res.ExitCode == 0 {
+				c.Cover("store-succeeded-despite-injected-error")
+				if o.kind != "DOC" {
+					fail("store-reported-success-after-io-error", "%s: Store returned no error, but afterwards Retrieve gives %s %s", ctx, o.kind, o.msg)
+					restore()
+					return
+				}
+			}
 			restore()
 		}
 	}
